@@ -123,6 +123,62 @@ Definition cfg_ok (c : cfg) : bool :=
 Definition code_cfg (cap : option nat) : cfg :=
   {| c_p := RecThenPub; c_s := SubThenSnap; c_f := FilterGtLast; c_cap := cap |}.
 
+(* ---------- several producers on ONE stream (task: stdout pump, stderr pump, main task share one TaskEmitter) ----------
+   A producer's emit = Choose (take the next seq number from the shared counter) ; Rec ; Pub  (the code's order).
+   span = what the emitter's seq mutex covers: the whole emit (TaskEmitter::emit today: the guard lives to the end of
+   the fn) or the counter only (guard dropped before the history buffer is locked).  Under SpanEmit a producer cannot
+   Choose while another one is inside its emit. *)
+Inductive span := SpanEmit | SpanCounter.
+Inductive mphase := MIdle | MChosen (k : nat) | MRecorded (k : nat).
+Definition is_idle (p : mphase) : bool := match p with MIdle => true | _ => false end.
+(* per producer: phase, frames it still has to start *)
+Record mst := { m_next : nat; m_prods : list (mphase * nat); m_hist : list nat; m_subs : list sub }.
+Inductive mactor := MP (j : nat) | MS (i : nat) | MO.
+
+Definition actives (ps : list (mphase * nat)) : list mphase := filter (fun p => negb (is_idle p)) (map fst ps).
+
+Definition prod_step (sp : span) (cap : option nat) (s : mst) (j : nat) : mst :=
+  match nth_error (m_prods s) j with
+  | Some (MIdle, S l) =>
+      match sp, actives (m_prods s) with
+      | SpanEmit, _ :: _ => s                      (* blocked on the seq mutex *)
+      | _, _ => {| m_next := S (m_next s); m_prods := upd_nth j (fun _ => (MChosen (m_next s), l)) (m_prods s);
+                   m_hist := m_hist s; m_subs := m_subs s |}
+      end
+  | Some (MChosen k, l) =>
+      {| m_next := m_next s; m_prods := upd_nth j (fun _ => (MRecorded k, l)) (m_prods s);
+         m_hist := m_hist s ++ [k]; m_subs := m_subs s |}
+  | Some (MRecorded k, l) =>
+      {| m_next := m_next s; m_prods := upd_nth j (fun _ => (MIdle, l)) (m_prods s);
+         m_hist := m_hist s; m_subs := map (deliver cap (Some k)) (m_subs s) |}
+  | _ => s
+  end.
+
+Definition mstep (c : cfg) (sp : span) (s : mst) (a : mactor) : mst :=
+  match a with
+  | MP j => prod_step sp (c_cap c) s j
+  | MS i => {| m_next := m_next s; m_prods := m_prods s; m_hist := m_hist s;
+               m_subs := upd_nth i (sub_step c (m_hist s)) (m_subs s) |}
+  | MO => {| m_next := m_next s; m_prods := m_prods s; m_hist := m_hist s;
+             m_subs := map (deliver (c_cap c) None) (m_subs s) |}
+  end.
+Definition mrun (c : cfg) (sp : span) (sched : list mactor) (s : mst) : mst := fold_left (mstep c sp) sched s.
+(* work = frames each producer emits *)
+Definition minit (work : list nat) (m : nat) : mst :=
+  {| m_next := 0; m_prods := map (fun w => (MIdle, w)) work; m_hist := []; m_subs := repeat fresh m |}.
+Definition mfinal (c : cfg) (sp : span) (work : list nat) (m : nat) (sched : list mactor) : mst :=
+  mrun c sp sched (minit work m).
+Definition work_left (ps : list (mphase * nat)) : nat := fold_right (fun p a => snd p + a) 0 ps.
+(* the single-producer view of a multi-producer state: which frame steps are still to come *)
+Definition mview (s : mst) : st :=
+  let n := m_next s + work_left (m_prods s) in
+  {| g_prog := match actives (m_prods s) with
+               | MRecorded k :: _ => Pub k :: rest RecThenPub n (S k)
+               | MChosen k :: _ => rest RecThenPub n k
+               | _ => rest RecThenPub n (m_next s)
+               end;
+     g_hist := m_hist s; g_subs := m_subs s |}.
+
 (* ---------- specification vocabulary (used by Props/C06.v) ---------- *)
 Definition mk (p : porder) (s : sorder) (f : lfilter) (cap : option nat) : cfg :=
   {| c_p := p; c_s := s; c_f := f; c_cap := cap |}.
@@ -149,13 +205,14 @@ Definition unfixed_cfg : cfg := mk PubThenRec SubThenSnap FilterGtLast None.
 
 (* a stream kind as the extractor (tools/gen/stream_order.py) reads it from the source; k_cap is the
    EVENT_CHANNEL_CAPACITY of that kind's broadcast channel *)
-Record kind_orders := { k_name : N; k_p : porder; k_s : sorder; k_f : lfilter; k_cap : N }.
+Record kind_orders := { k_name : N; k_p : porder; k_s : sorder; k_f : lfilter; k_cap : N; k_span : span }.
 Definition kind_cfg (k : kind_orders) (cap : option nat) : cfg :=
   {| c_p := k_p k; c_s := k_s k; c_f := k_f k; c_cap := cap |}.
 Definition kind_cap (k : kind_orders) : nat := N.to_nat (k_cap k).
 (* the configuration of a kind as the code runs it: bounded channel of EVENT_CHANNEL_CAPACITY frames *)
 Definition kind_code_cfg (k : kind_orders) : cfg := kind_cfg k (Some (kind_cap k)).
-Definition wf_kind (k : kind_orders) : bool := cfg_ok (kind_cfg k None) && N.ltb 0 (k_cap k).
+Definition span_ok (sp : span) : bool := match sp with SpanEmit => true | SpanCounter => false end.
+Definition wf_kind (k : kind_orders) : bool := cfg_ok (kind_cfg k None) && N.ltb 0 (k_cap k) && span_ok (k_span k).
 Definition wf_kinds (l : list kind_orders) : bool :=
   Nat.eqb (length l) 3 && forallb wf_kind l && lN_eqb (map k_name l) [0%N; 1%N; 2%N].
 
